@@ -154,6 +154,7 @@ type faultPlan struct {
 	kind int
 	at   int
 	last *faultConn
+	all  []*faultConn
 }
 
 func (p *faultPlan) wrap(c net.Conn) *faultConn {
@@ -161,13 +162,25 @@ func (p *faultPlan) wrap(c net.Conn) *faultConn {
 	defer p.mu.Unlock()
 	fc := newFaultConn(c, p.kind, p.at)
 	p.last = fc
+	p.all = append(p.all, fc)
 	return fc
 }
 
 func (p *faultPlan) set(kind, at int) {
 	p.mu.Lock()
-	p.kind, p.at, p.last = kind, at, nil
+	p.kind, p.at, p.last, p.all = kind, at, nil, nil
 	p.mu.Unlock()
+}
+
+func (p *faultPlan) allClosed() bool {
+	p.mu.Lock()
+	defer p.mu.Unlock()
+	for _, f := range p.all {
+		if !f.closed.Load() {
+			return false
+		}
+	}
+	return true
 }
 
 func (p *faultPlan) conn() *faultConn {
@@ -233,9 +246,19 @@ type config struct {
 	useTLS  bool
 	psk     bool
 	metrics bool
+	// the client's stream muxer (negotiated inside the security handshake) fails in NewConn
+	clientMuxerFails bool
+	// AcceptQueueLength for this world's listener (0 = default)
+	queueLen int
 }
 
-func mkEnd(t *testing.T, cfg config, psk ipnet.PSK) *end {
+type failMuxer struct{}
+
+func (failMuxer) NewConn(net.Conn, bool, network.PeerScope) (network.MuxedConn, error) {
+	return nil, errors.New("muxer refuses")
+}
+
+func mkEnd(t *testing.T, cfg config, psk ipnet.PSK, client bool) *end {
 	priv, _, err := crypto.GenerateEd25519Key(rand.Reader)
 	if err != nil {
 		t.Fatal(err)
@@ -246,6 +269,9 @@ func mkEnd(t *testing.T, cfg config, psk ipnet.PSK) *end {
 		t.Fatal(err)
 	}
 	muxers := []upgrader.StreamMuxer{{ID: "/yamux/1.0.0", Muxer: yamux.DefaultTransport}}
+	if client && cfg.clientMuxerFails {
+		muxers = []upgrader.StreamMuxer{{ID: "/yamux/1.0.0", Muxer: failMuxer{}}}
+	}
 	var st sec.SecureTransport
 	if cfg.useTLS {
 		st, err = tls.New(tls.ID, priv, muxers)
@@ -331,8 +357,13 @@ func mkWorld(t *testing.T, cfg config) *world {
 	psk := make([]byte, 32)
 	rand.Read(psk)
 	w := &world{cfg: cfg, accepted: make(chan transport.CapableConn, 16)}
-	w.srv = mkEnd(t, cfg, psk)
-	w.cli = mkEnd(t, cfg, psk)
+	w.srv = mkEnd(t, cfg, psk, false)
+	w.cli = mkEnd(t, cfg, psk, true)
+	if cfg.queueLen > 0 {
+		old := upgrader.AcceptQueueLength
+		upgrader.AcceptQueueLength = cfg.queueLen
+		defer func() { upgrader.AcceptQueueLength = old }()
+	}
 	ml, err := manet.Listen(ma.StringCast("/ip4/127.0.0.1/tcp/0"))
 	if err != nil {
 		t.Fatal(err)
@@ -357,7 +388,10 @@ func mkWorld(t *testing.T, cfg config) *world {
 
 func (w *world) close() {
 	w.ln.Close()
-	for range w.accepted {
+	for c := range w.accepted {
+		if c != nil {
+			c.Close() // a conn Accept handed to the harness is the harness's to close
+		}
 	}
 }
 
@@ -582,6 +616,64 @@ func (w *world) slowAccept(out *verifh.Out, k int, kill bool) {
 	}
 }
 
+// closeWithParked: the accept queue is full (queueLen upgraded connections nobody
+// accepts), one more raw connection is parked at the threshold, then the listener
+// is closed.  Everything the listener held must be released.  Must be the last
+// scenario of its world.
+func (w *world) closeWithParked(out *verifh.Out) {
+	cli, srv := w.cli, w.srv
+	cli.plan.set(fNone, 0)
+	srv.plan.set(fNone, 0)
+	runtime.GC()
+	time.Sleep(15 * time.Millisecond)
+	baseG := runtime.NumGoroutine()
+	baseS := stat(srv.rm)
+	w.paused.Store(true)
+	time.Sleep(10 * time.Millisecond)
+	n := w.cfg.queueLen + 1
+	var wg sync.WaitGroup
+	var mu sync.Mutex
+	var conns []transport.CapableConn
+	for i := 0; i < n; i++ {
+		wg.Add(1)
+		go func() {
+			defer wg.Done()
+			ctx, cancel := context.WithTimeout(context.Background(), 300*time.Millisecond)
+			defer cancel()
+			if c, err := cli.tpt.Dial(ctx, w.laddr, srv.id); err == nil {
+				mu.Lock()
+				conns = append(conns, c)
+				mu.Unlock()
+			}
+		}()
+		time.Sleep(20 * time.Millisecond)
+	}
+	time.Sleep(120 * time.Millisecond) // queue full, the last raw conn parked (accept timeout 400ms not reached)
+	w.ln.Close()
+	w.paused.Store(false)
+	wg.Wait()
+	for c := range w.accepted {
+		if c != nil {
+			c.Close() // a conn Accept handed to the harness is the harness's to close
+		}
+	}
+	for _, c := range conns {
+		c.Close()
+	}
+	var dS usage
+	settle(5*time.Second, func() bool {
+		s := stat(srv.rm)
+		dS = usage{s.conns - baseS.conns, s.fd - baseS.fd, s.streams - baseS.streams, s.mem - baseS.mem}
+		return dS == usage{} && srv.plan.allClosed() && runtime.NumGoroutine() <= baseG
+	})
+	gl := int64(runtime.NumGoroutine() - baseG)
+	if gl < 0 {
+		gl = 0
+	}
+	out.Case([]int64{2, w.cfg.id*10 + 9, 202, int64(n), 1, b2i(srv.plan.allClosed()), 2, dS.conns, dS.fd, dS.mem, dS.streams, gl})
+	out.Cover("attempt.listener_closed_with_parked_conn")
+}
+
 func TestVerifC04(t *testing.T) {
 	out, err := verifh.Open()
 	if err != nil {
@@ -636,6 +728,18 @@ func TestVerifC04(t *testing.T) {
 		w.slowAccept(out, 1+int(cfg.id%3), false)
 		w.slowAccept(out, 1+int((cfg.id+1)%3), true)
 		w.close()
+	}
+	// the muxer negotiated inside the security handshake fails on the client
+	for _, cfg := range []config{{id: 6, clientMuxerFails: true}, {id: 7, useTLS: true, clientMuxerFails: true}} {
+		w := mkWorld(t, cfg)
+		w.attempt(out, 0, fNone, 0, 0)
+		out.Cover("attempt.early_muxer_fails")
+		w.close()
+	}
+	// listener closed while the accept queue is full and one more conn is parked
+	for _, cfg := range []config{{id: 8, queueLen: 2}, {id: 9, useTLS: true, queueLen: 1}} {
+		w := mkWorld(t, cfg)
+		w.closeWithParked(out)
 	}
 	// metrics enabled with a dialer that does not return a *net.TCPConn
 	// (newTracingConn fails after the raw conn has been dialed)
